@@ -101,4 +101,5 @@ def main():
           "failures": rest[:30], "known": hit})
 
 
-main()
+if __name__ == "__main__":
+    main()
